@@ -64,7 +64,7 @@ func cs(c types.Currency) string { return c.ExactString() }
 // prices of a history (hastings)
 type prices struct {
 	contract, storage, ingress, egress, baseRPC, sectorAccess types.Currency
-	collMul                                                 float64
+	collMul                                                   float64
 }
 
 func (p prices) String() string {
@@ -100,7 +100,7 @@ type world struct {
 	sectorSeq  uint64
 	localAbort bool
 	hadUpdate  bool
-	cleanup   []func()
+	cleanup    []func()
 }
 
 func (w *world) close() {
